@@ -1886,6 +1886,7 @@ fn main() {
     // history -> canonical key, per backend (differential)
     let mut hist_canon: Vec<HashMap<String, String>> = vec![];
     let mut folder_api_inits: Vec<StateItem> = vec![];
+    let mut capped: Vec<Value> = vec![];
     for b in &backends {
         let cfg_dir = wd.path().join(b.name());
         std::fs::create_dir_all(&cfg_dir).unwrap();
@@ -1913,6 +1914,13 @@ fn main() {
                 for op in enabled(&st.model, &p) {
                     items.push(WorkItem { state: si, op });
                 }
+            }
+            // cap (reported, never hidden): the canonical-order prefix of
+            // a level that would exceed the budget
+            let cap: usize = std::env::var("HIST_LEVEL_CAP").ok().and_then(|s| s.parse().ok()).unwrap_or(if args.tier == Tier::Thorough { 8000 } else { usize::MAX });
+            if items.len() > cap {
+                capped.push(json!({"backend": b.name(), "depth": d + 1, "paths_at_this_depth": items.len(), "executed": cap}));
+                items.truncate(cap);
             }
             std::fs::write(
                 &input,
@@ -2109,7 +2117,8 @@ fn main() {
     cov.insert("transitions".into(), json!(transitions));
     cov.insert("traces_validated_against_impl".into(), json!(transitions));
     cov.insert("samples".into(), json!(samples));
-    cov.insert("exhaustive".into(), json!(true));
+    cov.insert("exhaustive".into(), json!(capped.is_empty()));
+    cov.insert("caps_hit".into(), json!(capped));
     cov.insert("profile".into(), json!(p));
     cov.insert("folder_api_id_reuse_sequences".into(), json!(folder_api_cases));
     cov.insert("merge_worlds_(sync_engine_by_product)".into(), merge_worlds);
